@@ -286,20 +286,32 @@ def run():
         maps = sorted(MAPS)
     q = lambda xs: ", ".join('"%s"' % x for x in xs)  # noqa
     resetcalls = ["d_ecshift"] if chk.quick else ["d_ecshift", "d_plain", "m_ins"]
-    cfg = CFG % (maxlen, q(calls), ", ".join("{%s}" % q(t) for t in targets), q(maps), q(resetcalls))
-    r = tlc.run("Process", cfg, workers=1, timeout=3000, name="Process", xmx="8g")
-    if r.invariant_violated or r.error:
-        raise tlc.TLCError("Process: %s\n%s" % (r.error, "\n".join(l for l in r.out.splitlines() if not l.startswith('"'))[-2000:]))
-    chk.add_model(r, "Process MaxLen=%d, %d calls, %d target sets, %d ignore maps" % (maxlen, len(calls), len(targets), len(maps)))
-    hists = r.json_lines("HIST")
-    # only maximal histories need replaying (every prefix is replayed on the way)
-    maximal = [h for h in hists if len(h) >= maxlen]        # (a reset glued to a call is two entries in one step)
-    cap = 11000
-    if len(maximal) > cap:
-        chk.notes["maximal_histories_enumerated"] = len(maximal)
-        common.rng("c12").shuffle(maximal)
-        maximal = maximal[:cap]
-        chk.cov["exhaustive"] = False
+    configs = [(maxlen, calls, targets, maps, resetcalls)]
+    if not chk.quick:
+        # every call / target set / map at length 3, and length 4 over a subset drawn with the run's seed (the number of
+        # histories grows with the fourth power of the alphabet: 2.3 M with everything)
+        rr = common.rng("c12-subset")
+        some = sorted(set(["d_ecshift", "m_fail", "m_ins"] + rr.sample(sorted(POOL), min(6, len(POOL)))))
+        configs = [(3, calls, targets, maps, resetcalls),
+                   (4, some, targets[:3], rr.sample(sorted(MAPS), min(2, len(MAPS))), ["d_ecshift"])]
+    cap = 11000 if chk.quick else 5000
+    maximal = []
+    for ml, cs, ts, ms, rcs in configs:
+        cfg = CFG % (ml, q(cs), ", ".join("{%s}" % q(t) for t in ts), q(ms), q(rcs))
+        r = tlc.run("Process", cfg, workers=1, timeout=3000, name="Process-%d" % ml, xmx="8g")
+        if r.invariant_violated or r.error:
+            raise tlc.TLCError("Process: %s\n%s" % (r.error, "\n".join(l for l in r.out.splitlines() if not l.startswith('"'))[-2000:]))
+        chk.add_model(r, "Process MaxLen=%d, %d calls, %d target sets, %d ignore maps" % (ml, len(cs), len(ts), len(ms)))
+        hists = r.json_lines("HIST")
+        # only maximal histories need replaying (every prefix is replayed on the way)
+        mx = [h for h in hists if len(h) >= ml]        # (a reset glued to a call is two entries in one step)
+        del hists
+        if len(mx) > cap:
+            chk.notes["maximal_histories_enumerated_len%d" % ml] = len(mx)
+            common.rng("c12").shuffle(mx)
+            mx = mx[:cap]
+            chk.cov["exhaustive"] = False
+        maximal += mx
     # a history without any call checks only the state projection: keep those too
     tasks = [(h, work) for h in maximal]
     replayed = pristine_map(_run_history, tasks)
@@ -348,10 +360,11 @@ def run():
     chk.notes["pristine_oracle_runs"] = len(need)
     chk.sample({"history": [s["op"] for s in maximal[len(maximal) // 2]]})
     chk.sample({"history": [s["op"] for s in maximal[-1]]})
-    chk.cov["exhaustive"] = "maximal_histories_enumerated" not in chk.notes
-    chk.cov["rule"] = ("all histories of length %d over the alphabet {%d calls, %d target sets x {api, flags}, %d Ignore maps, reset} "
-                       "enumerated by TLC; each replayed in its own pristine interpreter; distinct by operation prefix"
-                       % (maxlen, len(calls), len(targets), len(maps)))
+    chk.cov["exhaustive"] = not any(k.startswith("maximal_histories_enumerated") for k in chk.notes)
+    chk.cov["rule"] = ("all histories " + " and ".join(
+        "of length %d over the alphabet {%d calls, %d target sets x {api, flags}, %d Ignore maps, reset}" % (ml, len(cs), len(ts), len(ms))
+        for ml, cs, ts, ms, rcs in configs) + " enumerated by TLC (at most %d maximal ones per alphabet replayed, drawn with the "
+        "run's seed); each replayed in its own pristine interpreter; distinct by operation prefix" % cap)
     chk.assumptions += ["a fork of a parent that has only imported nbdime is as good as a freshly started interpreter",
                         "the projection reads nbdime.diffing.notebooks.notebook_differs (closure cells of diff_ignore_keys wrappers)",
                         "pool notebooks include metadata / JSON outputs whose value at one path is a list of lists, a list of objects, "
